@@ -136,6 +136,7 @@ func varOf(mode string, w, c []int) int { return hashSeq(hashSeq(7, w), c)%nv(mo
 // aux: Codec!Aux -- two more bits derived from the whole input: api (string / []byte setters), pm (Parse host argument)
 func aux(in *In) int   { return hashSeq(hashSeq(hashSeq(11, in.W), in.C), []int{in.V}) }
 func apiOf(in *In) int { return aux(in) % 2 }
+func ordOf(in *In) int { return (aux(in) / 4) % 2 }
 func pmOf(in *In) int  { return (aux(in) / 2) % 2 }
 
 // field j (1-based) of the input as bytes
@@ -471,15 +472,21 @@ func (o *objs) cookie(b *Block, in *In) vtrace.Rec {
 		}
 	}
 	c.SetHTTPOnly(httpOnly)
-	c.SetSecure(secure)
+	ord := ordOf(in)
+	if ord == 0 {
+		c.SetSecure(secure)
+	}
 	c.SetSameSite(protocol.CookieSameSite(sameSite))
 	c.SetPartitioned(partitioned)
+	if ord == 1 {
+		c.SetSecure(secure) // the caller has the last word: SameSite=None / Partitioned without Secure
+	}
 	str := c.String()
 	rec := cookieRec(c)
 	err := o.c2.Parse(str)
 	return vtrace.Rec{"in": in,
 		"set": vtrace.Rec{"key": esc(key), "value": esc(value), "httpOnly": httpOnly, "secure": secure,
-			"partitioned": partitioned, "sameSite": sameSite, "exp": exp, "maxAge": maxAge, "domain": domain, "path": path, "api": api},
+			"partitioned": partitioned, "sameSite": sameSite, "exp": exp, "maxAge": maxAge, "domain": domain, "path": path, "api": api, "ord": ord},
 		"rec": rec, "str": esc([]byte(str)), "ok": err == nil, "parsed": cookieRec(&o.c2)}
 }
 
